@@ -1,4 +1,5 @@
 import DicomModel.Lemmas.RefReader3
+import DicomModel.Lemmas.LazyEager
 /-
 C02, reader side, part 4: runs of the reader over the reference encoding of elements, pixel data,
 items and data sets (big-step relation `Run`, mutual induction on the tree).
@@ -7,9 +8,15 @@ set_option linter.unusedSimpArgs false
 set_option linter.unusedVariables false
 namespace Dicom.Ref
 
-/-- one `next()` call yields token `t` (for any amount of loop fuel) and leaves state `s'` -/
+/-- one `next()` call yields token `t` (for any amount of loop fuel) and leaves state `s'`; the step is
+none of the places where the lazy reader differs by design (`LE.AnomStep`; for every token but an offset
+table this follows from the first part, `LE.calm_of_next`) -/
 def StepTo (s : RState) (t : Token) (s' : RState) : Prop :=
-  ∀ fuel, s.next (fuel + 1) = (some (.ok t), s')
+  (∀ fuel, s.next (fuel + 1) = (some (.ok t), s')) ∧ LE.AnomStep s = false
+
+theorem StepTo.of_plain {s s' : RState} {t : Token} (h : ∀ fuel, s.next (fuel + 1) = (some (.ok t), s'))
+    (hne : ∀ vs, t ≠ .offsetTable vs) : StepTo s t s' :=
+  ⟨h, LE.calm_of_next s t s' (h 0) hne⟩
 
 /-- successive `next()` calls yield exactly these tokens -/
 inductive Run : RState → List Token → RState → Prop
@@ -128,7 +135,7 @@ theorem run_prim {ts : Syntax} {dict : Tag → Option VR} {t : Tag} {vr : VR} {l
   have s1 : StepTo (stE ts dict (encElem ts (.prim t vr len v) ++ rest) pos p stack) (.elementHeader ⟨t, vr, len⟩)
       ⟨⟨ts, dict, value ts.bigEndian v ++ rest, pos + (header ts t vr len).length⟩, false, false, false, stack,
         false, some ⟨t, vr, len⟩⟩ := by
-    intro fuel
+    refine StepTo.of_plain (fun fuel => ?_) (by intro vs h; cases h)
     refine next_body _ _ _ fuel rfl (fun _ => hroom.open (by rw [hlen]; have := header_pos ts t vr len; omega)) ?_
     simp only [encElem, List.append_assoc]
     exact body_elemHeader _ _ false stack ⟨t, vr, len⟩ hpl.noPixTop hd ok.notSq (tagOk_ne_delim ok.tag)
@@ -136,7 +143,7 @@ theorem run_prim {ts : Syntax} {dict : Tag → Option VR} {t : Tag} {vr : VR} {l
   have s2 : StepTo ⟨⟨ts, dict, value ts.bigEndian v ++ rest, pos + (header ts t vr len).length⟩, false, false, false,
       stack, false, some ⟨t, vr, len⟩⟩ (.primitiveValue v)
       (stE ts dict rest (pos + (header ts t vr len).length + len) true stack) := by
-    intro fuel
+    refine StepTo.of_plain (fun fuel => ?_) (by intro vs h; cases h)
     refine next_body _ _ _ fuel rfl (fun h => by simp at h) ?_
     exact body_value _ _ false stack ⟨t, vr, len⟩ v hpl.noPixTop (encaps_false_of_len hund)
       (read_value ok rest _)
@@ -156,7 +163,7 @@ theorem step_pixItemStart (ts : Syntax) (dict : Tag → Option VR) (len : Nat) (
     StepTo (stI ts dict (itemHdr ts.bigEndian len ++ rest) pos p (pixSq base :: stack)) (.itemStart len)
       ⟨⟨ts, dict, rest, pos + 8⟩, false, false, (len == 0), ⟨true, len, true, pos + 8⟩ :: pixSq base :: stack,
         false, none⟩ := by
-  intro fuel
+  refine StepTo.of_plain (fun fuel => ?_) (by intro vs h; cases h)
   refine next_body _ _ _ fuel rfl (fun _ => Or.inl rfl) ?_
   exact body_itemStart _ _ false (pixSq base) stack none len (dec_itemHeader ts dict len hl rest pos)
 
@@ -164,7 +171,7 @@ theorem step_pixItemEnd (ts : Syntax) (dict : Tag → Option VR) (len : Nat) (hl
     (rest : Bytes) (pos0 base : Nat) (stack : List RSeqTok) :
     StepTo ⟨⟨ts, dict, rest, pos0 + len⟩, false, false, true, ⟨true, len, true, pos0⟩ :: pixSq base :: stack,
         false, none⟩ .itemEnd (stI ts dict rest (pos0 + len) true (pixSq base :: stack)) := by
-  intro fuel
+  refine StepTo.of_plain (fun fuel => ?_) (by intro vs h; cases h)
   have := next_end ⟨ts, dict, rest, pos0 + len⟩ false false ⟨true, len, true, pos0⟩ (pixSq base :: stack) none fuel
     hl rfl
   simpa using this
@@ -196,7 +203,7 @@ theorem run_frag (ts : Syntax) (dict : Tag → Option VR) (f : Bytes) (h1 : f.le
         ⟨true, f.length, true, pos + 8⟩ :: pixSq base :: stack, false, none⟩ (.itemValue f)
         ⟨⟨ts, dict, rest, pos + 8 + f.length⟩, false, false, true,
           ⟨true, f.length, true, pos + 8⟩ :: pixSq base :: stack, false, none⟩ := by
-      intro fuel
+      refine StepTo.of_plain (fun fuel => ?_) (by intro vs h; cases h)
       refine next_body _ _ _ fuel rfl (fun h => by simp at h) ?_
       exact body_itemValue ts dict (f ++ rest) (pos + 8) f.length (pos + 8) _ none f rest hund (takeN_append f rest)
     have s3 := step_pixItemEnd ts dict f.length hund rest (pos + 8) base stack
@@ -238,7 +245,7 @@ theorem run_pix {ts : Syntax} {dict : Tag → Option VR} {bot : List Nat} {frags
       ⟨⟨ts, dict, itemHdr be (4 * bot.length) ++ (bot.flatMap (enc32 be) ++ (frags.flatMap (fragment be) ++
         (seqDelim be ++ rest))), pos + hd.length⟩, false, false, false, stack, false,
         some ⟨Tag.pixelData, readVr ts dict Tag.pixelData .OB, undefinedLen⟩⟩ := by
-    intro fuel
+    refine StepTo.of_plain (fun fuel => ?_) (by intro vs h; cases h)
     refine next_body _ _ _ fuel rfl (fun _ => hroom.open (by rw [hlen]; omega)) ?_
     simp only [encElem, List.append_assoc]
     exact body_pixStart _ _ false stack _ hpl.noPixTop hdec (readVr_pix_ne_sq ts dict)
@@ -251,7 +258,7 @@ theorem run_pix {ts : Syntax} {dict : Tag → Option VR} {bot : List Nat} {frags
       ⟨⟨ts, dict, bot.flatMap (enc32 be) ++ (frags.flatMap (fragment be) ++ (seqDelim be ++ rest)), pos + hd.length + 8⟩,
         false, (4 * bot.length != 0), (4 * bot.length == 0),
         ⟨true, 4 * bot.length, true, pos + hd.length + 8⟩ :: pixSq (pos + hd.length) :: stack, false, none⟩ := by
-    intro fuel
+    refine StepTo.of_plain (fun fuel => ?_) (by intro vs h; cases h)
     refine next_body _ _ _ fuel rfl (fun h => by simp at h) ?_
     exact body_pixFirstItem _ _ stack _ (4 * bot.length) hpl.noPixTop (by simp [ElemHeader.isEncapsulatedPixeldata])
       (dec_itemHeader ts dict (4 * bot.length) hn _ _)
@@ -293,9 +300,21 @@ theorem run_pix {ts : Syntax} {dict : Tag → Option VR} {bot : List Nat} {frags
           ⟨⟨ts, dict, frags.flatMap (fragment be) ++ (seqDelim be ++ rest), pos + hd.length + 8 + 4 * bot.length⟩,
             false, false, true,
             ⟨true, 4 * bot.length, true, pos + hd.length + 8⟩ :: pixSq (pos + hd.length) :: stack, false, none⟩ := by
-        intro fuel
-        refine next_body _ _ _ fuel rfl (fun h => by simp at h) ?_
-        exact body_offsetTable ts dict _ _ (4 * bot.length) _ _ none bot _ (len_ne_undef ok.botLen) (by omega) hrd
+        refine ⟨fun fuel => ?_, ?_⟩
+        · refine next_body _ _ _ fuel rfl (fun h => by simp at h) ?_
+          exact body_offsetTable ts dict _ _ (4 * bot.length) _ _ none bot _ (len_ne_undef ok.botLen) (by omega) hrd
+        · -- the offset table item is complete and a multiple of 4 bytes long: the lazy consumer reads the same bytes
+          have hund : 4 * bot.length ≠ undefinedLen := len_ne_undef ok.botLen
+          have htk : takeN (4 * bot.length) (bot.flatMap (enc32 be) ++ (frags.flatMap (fragment be) ++ (seqDelim be ++ rest))) =
+              some (bot.flatMap (enc32 be), frags.flatMap (fragment be) ++ (seqDelim be ++ rest)) := by
+            have := takeN_append (bot.flatMap (enc32 be)) (frags.flatMap (fragment be) ++ (seqDelim be ++ rest))
+            rw [hbl] at this
+            rw [e4]; exact this
+          have h40 : 4 * bot.length % 4 = 0 := by omega
+          have hrd' := hrd
+          have h41 : 4 * bot.length / 4 = bot.length := by omega
+          rw [h41] at hrd'
+          simp [LE.AnomStep, LE.Anom, LE.itemValueAgrees, hund, hrd', htk, h40, be]
       have s4 := step_pixItemEnd ts dict (4 * bot.length) (len_ne_undef ok.botLen)
         (frags.flatMap (fragment be) ++ (seqDelim be ++ rest)) (pos + hd.length + 8) (pos + hd.length) stack
       rw [← e4]
@@ -306,7 +325,7 @@ theorem run_pix {ts : Syntax} {dict : Tag → Option VR} {bot : List Nat} {frags
       (pos + hd.length + 8 + bot.length * 4 + (frags.flatMap (fragment be)).length) true (pixSq (pos + hd.length) :: stack))
       .sequenceEnd (stE ts dict rest
         (pos + hd.length + 8 + bot.length * 4 + (frags.flatMap (fragment be)).length + 8) true stack) := by
-    intro fuel
+    refine StepTo.of_plain (fun fuel => ?_) (by intro vs h; cases h)
     refine next_body _ _ _ fuel rfl (fun _ => Or.inl rfl) ?_
     exact body_seqEndDelim _ _ false _ none (dec_seqDelim ts dict rest _)
   have all := (Run.cons s1 hbot).append (hfr.append (Run.single s5))
